@@ -183,14 +183,14 @@ theorem c03_dispatcher_shape :
     Gen.C03.popErrorReason = "statusReasonNoReadyEndpoints" ∧ Gen.C03.popErrorReturns = true ∧
     Gen.C03.forwardHostFromPicked = true ∧ Gen.C03.transportFromPicked = true := by decide
 
-/-! ## requests racing with a Sync that changes the server set — finding C03-lb-reset-race
+/-! ## requests racing with a Sync that changes the server set — finding C03-lb-reset-race (fixed by bb51c11)
 
 The theorems above treat `sync` and `pop` as atomic ops.  On the real code a `Pop` can run *while* `syncEndpoints` resets
-the load-balancer map.  Full statement: no interleaving of pickers with resets makes the process die.  It is **false** of
-the code as long as the reset is the assignment `c.loadbalancer = sync.Map{}` (regenerated fact
-`Gen.C03.lbResetAssignsNewMap`): witness below, reproduced on the real code by the harness's race stream
-(`fatal error: sync: unlock of unlocked mutex`, findings/C03-lb-reset-race).  It is proved for histories in which no
-reset overlaps a pick, and for the repair that empties the map in place. -/
+the load-balancer map.  Full statement: no interleaving of pickers with resets makes the process die (`NoFatal`).  It was
+**false** of the tree while the reset was the assignment `c.loadbalancer = sync.Map{}` (witness below; on the real code
+`fatal error: sync: unlock of unlocked mutex`, findings/C03-lb-reset-race).  The tree now empties the map in place; that this
+is so is read from the source on every run (`Gen.C03.lbResetAssignsNewMap = false`), and `c03_no_fatal` is the full statement
+about the current tree, unconditionally: it stops checking if the assignment comes back. -/
 
 /-- the full statement for a reset of the given kind -/
 def NoFatal (inPlace : Bool) : Prop := ∀ acts : List RaceAct, (raceRun inPlace acts).fatal = false
@@ -220,6 +220,9 @@ theorem c03_code_no_fatal_iff : CodeNoFatal ↔ Gen.C03.lbResetAssignsNewMap = f
   cases Gen.C03.lbResetAssignsNewMap with
   | false => exact ⟨fun _ => rfl, fun _ => c03_lb_reset_in_place_is_safe⟩
   | true => exact ⟨fun h => absurd h c03_lb_reset_by_assignment_is_fatal, fun h => by cases h⟩
+
+/-- **the full statement holds of the current tree** (the regenerated fact says: the reset is in place) -/
+theorem c03_no_fatal : CodeNoFatal := c03_code_no_fatal_iff.2 (by decide)
 
 /-! ## non-vacuity: concrete histories on which the hypotheses hold non-trivially -/
 
